@@ -61,6 +61,7 @@ pub fn record_solver_run(agg: &mut Agg, sc: &Scenario, out: &Outcome, viol: &[Vi
     agg.add("fringe_pushes", out.fringe.pushes as u64);
     agg.add("fringe_clears", out.fringe.clears as u64);
     agg.add("fringe_coalesced", out.fringe.coalesced as u64);
+    agg.hit("d5_signature(sub-problem handed back)", out.fringe.repush_of_popped > 0);
     agg.add("fringe_coalesced_diff_ub", out.fringe.coalesced_diff_ub as u64);
     agg.max("fringe_len", out.fringe.max_len as u64);
     for (k, n) in out.counters.iter() { agg.add(k, *n as u64); }
